@@ -1,5 +1,5 @@
 import QuiverModel.Core.Heap.Unfixed
-import QuiverModel.Lemmas.Heap.Select
+import QuiverModel.Lemmas.Heap.ResultPres
 /-
 C06 — Binary heap accounting is exact: no leak, no premature free, no aliasing damage.
 
@@ -136,6 +136,28 @@ theorem acct_step_stepInstr (env : Env) (henv : EnvOk env) {s : State} (h : Inv 
     | ok => exact ⟨a, b, c⟩
     | act x => exact ⟨a, b, c⟩
     | wait => exact ⟨a, b, c⟩
+
+/-- no instruction handler touches the stored result of any process -/
+theorem exec_keeps_results (env : Env) (s : State) (pid : Nat) (i : Instr) (q : Nat) :
+    ((exec env s pid i).1.getProc q).map (·.result) = (s.getProc q).map (·.result) :=
+  sameRes_exec env s pid i q
+
+/-- `acct_step_stepInstr` with its side condition on the state BEFORE the instruction: the running
+process has no stored result (`resume_process` takes it; a fresh process has none) -/
+theorem acct_step_stepInstr_pre (env : Env) (henv : EnvOk env) {s : State} (h : Inv s) (pid : Nat) (i : Instr)
+    (hpre : InstrPre s pid i) (hrun : ∀ p v, s.getProc pid = some p → p.result ≠ some (.ok v)) :
+    Inv (stepInstr env s pid i).1 ∧ Stable s (stepInstr env s pid i).1
+      ∧ (stepInstr env s pid i).1.transit = s.transit := by
+  refine acct_step_stepInstr env henv h pid i hpre ?_
+  intro p v hp
+  have hk := exec_keeps_results env s pid i pid
+  rw [hp] at hk
+  cases hs : s.getProc pid with
+  | none => rw [hs] at hk; cases hk
+  | some p0 =>
+    rw [hs] at hk
+    simp only [Option.map_some, Option.some.injEq] at hk
+    rw [hk]; exact hrun p0 v hs
 
 /-! ## `acct_step`: the select machinery -/
 
@@ -353,7 +375,7 @@ inductive Reach : State → Prop where
   | reclaim {s} : Reach s → Reach (processPendingFree s)
   /-- one instruction of the time slice of process `pid` (handler + `Err` arm) -/
   | instr {s} (env : Env) (pid : Nat) (i : Instr) : Reach s → EnvOk env → InstrPre s pid i →
-      (∀ p v, (exec env s pid i).1.getProc pid = some p → p.result ≠ some (.ok v)) →
+      (∀ p v, s.getProc pid = some p → p.result ≠ some (.ok v)) →
       Reach (stepInstr env s pid i).1
   /-- a `Select` instruction (first execution or any re-entry) -/
   | select {s} (env : SelEnv) (pid : Nat) : Reach s → (∀ id r, env.run id = some r → BuiltinOk r) →
@@ -384,7 +406,7 @@ theorem reach_inv {s : State} (h : Reach s) : Inv s ∧ s.transit = [] := by
   | init => exact ⟨acct_init, rfl⟩
   | reclaim _ ih => exact ⟨inv_processPendingFree ih.1, by rw [(ppf_frame ih.1).2.2.1.transit]; exact ih.2⟩
   | instr env pid i _ he hp hr ih =>
-    have ⟨a, _, c⟩ := acct_step_stepInstr env he ih.1 pid i hp hr
+    have ⟨a, _, c⟩ := acct_step_stepInstr_pre env he ih.1 pid i hp hr
     exact ⟨a, c.trans ih.2⟩
   | select env pid _ he hr ih =>
     have g := good_handleSelect env he ih.1 pid
